@@ -585,6 +585,23 @@ def catalogue():
     add("eye", lambda: (da.eye(5, chunks=2, k=1), np.eye(5, k=1)))
     add("diag-1d", lambda: (da.diag(da.arange(5, chunks=2)), np.diag(np.arange(5))))
     add("diag-2d", lambda: (da.diag(da.from_array(d[:4, :4], chunks=2)), np.diag(d[:4, :4])))
+    add("diag-2d-ragged", lambda: (da.diag(src(((1, 3), (2, 2, 2)))), np.diag(d)))
+    add("diag-2d-k", lambda: (da.diag(src(), k=np.int64(1)), np.diag(d, k=1)))
+    add("diagonal-3d", lambda: (da.diagonal(da.from_array(d.reshape(2, 3, 4), chunks=(1, 2, 3)), offset=1, axis1=1, axis2=2), np.diagonal(d.reshape(2, 3, 4), 1, 1, 2)))
+    add("vindex", lambda: (src().vindex[[0, 3, 1, 3], [5, 0, 2, 2]], d[[0, 3, 1, 3], [5, 0, 2, 2]]))
+    add("vindex-arrays", lambda: (src().map_blocks(lambda b: b).vindex[np.array([[0], [3]]), np.array([[5, 0, 2]])], d[np.array([[0], [3]]), np.array([[5, 0, 2]])]))
+    add("vindex-slice", lambda: (src().vindex[[0, 3, 1], :], d[[0, 3, 1], :]))
+    add("tril", lambda: (da.tril(src(), k=1), np.tril(d, k=1)))
+    add("triu", lambda: (da.triu(src(), k=np.int64(-1)), np.triu(d, k=-1)))
+    add("take-np", lambda: (da.take(src(), np.array([5, 0, 3, 3], dtype=np.int64), axis=1), d[:, [5, 0, 3, 3]]))
+    add("blocks-np", lambda: (src().blocks[np.int64(1), np.int64(2)], d[1:4, 4:6]))
+    add("getitem-np-int", lambda: (src()[np.int64(2), np.int64(1):np.int64(5)], d[2, 1:5]))
+    add("bincount", lambda: (da.bincount(da.from_array(d.ravel() % 5, chunks=7), minlength=6), np.bincount(d.ravel() % 5, minlength=6)))
+    add("histogram", lambda: (da.histogram(src(), bins=4, range=(0, 23))[0], np.histogram(d, bins=4, range=(0, 23))[0]))
+    add("searchsorted", lambda: (da.searchsorted(da.arange(0, 24, 3, chunks=3), src()), np.searchsorted(np.arange(0, 24, 3), d)))
+    add("tsqr-r", lambda: (da.linalg.tsqr(da.from_array(d.astype("f8"), chunks=((1, 3), (6,))))[1], None))
+    add("svd-s", lambda: (da.linalg.svd(da.from_array(d.astype("f8"), chunks=((2, 2), (6,))))[1], np.linalg.svd(d.astype("f8"), compute_uv=False)))
+    add("argmax-flat", lambda: (da.argmax(da.from_array(d, chunks=(2, 6))), d.argmax()))
     add("cumsum-seq", lambda: (da.cumsum(src(), axis=1, method="sequential"), np.cumsum(d, axis=1)))
     add("cumsum-blelloch", lambda: (da.cumsum(src(), axis=0, method="blelloch"), np.cumsum(d, axis=0)))
     add("cumprod", lambda: (da.cumprod(src() % 3 + 1, axis=1), np.cumprod(d % 3 + 1, axis=1)))
@@ -708,6 +725,14 @@ def _adapter_source_nodes(source):
     with dask.config.set({"array.optimize-graph": source["optimize"]}):
         if source.get("kind") == "container":
             y = CN.build_container(source)[source["roots"][0]]
+        elif source.get("kind") == "catalog":
+            from harness.props_ext import c21_catalog as CC
+
+            env = CC.build_catalog(source)
+            seen = {}
+            for r in env["_roots"]:  # an entry with several outputs (qr, unique(return_counts), nonzero, …): every output's lowered nodes
+                walk_exprs(env[r]._lowered_expr, seen)
+            return env[env["_roots"][0]], list(seen.values())
         elif source.get("kind") == "fused":
             from harness.props_ext import c21_fused as CF
 
@@ -730,7 +755,8 @@ def adapter_source(ctx, source, count=True):
         for sig, detail in adapter_fidelity(ctx, {}, n, count=False):
             out.append((sig, detail, f"{type(n).__module__}.{type(n).__name__}"))
         if count:
-            ctx.count(("adapter", type(n).__name__, source.get("api", "fused" if source.get("kind") == "fused" else "program"), source["optimize"]))
+            ctx.count(("adapter", type(n).__name__, source.get("api", "fused" if source.get("kind") == "fused" else "program") if source.get("kind") != "catalog"
+                       else "catalog:" + source["name"].split(":")[0], source["optimize"]))
     return out
 
 
@@ -766,13 +792,15 @@ def adapter_stream(ctx):
             return
         for sig in sigs:
             small = source
-            if source.get("kind") in ("container", "fused"):
+            if source.get("kind") in ("container", "fused", "catalog"):
                 def still(c, sig=sig):
                     f = adapter_source(ctx, c, count=False)
                     return bool(f) and any(s == sig for s, _, _ in f)
 
                 try:
-                    small = (CN.shrink_container if source["kind"] == "container" else CF.shrink_fused)(source, still)
+                    from harness.props_ext import c21_catalog as CC
+
+                    small = (CN.shrink_container if source["kind"] == "container" else CF.shrink_fused if source["kind"] == "fused" else CC.shrink_catalog)(source, still)
                 except Exception:
                     small = source
             f2 = adapter_source(ctx, small, count=False) or fails
@@ -822,6 +850,23 @@ def adapter_stream(ctx):
                     except Exception:
                         pass
                     report(src, adapter_source(ctx, src, count=False) or fails)
+        # ---- the public-API catalogue (harness.props_ext.c21_catalog): every lowered node of the directed entries (NumPy-typed indices /
+        # axes / offsets / block numbers into diag, vindex, tril/triu, take, blocks, overlap, tsqr/svd, arg-reductions, bincount, histogram,
+        # searchsorted, random choice, shuffle) in every run, the rest of the table swept in seeded order inside the budget
+        from harness.props_ext import c21_catalog as CC
+
+        t1 = time.time()
+        cbudget = ctx.scale(6.5, 80)
+        directed, sweep = CC.catalog_cases(rng, full=ctx.tier != "quick")
+        n_k = 0
+        for i, case in enumerate(directed + sweep):
+            if (i >= len(directed) and time.time() - t1 > cbudget) or time.time() - t1 > 2 * cbudget:
+                break
+            n_k += 1
+            fails = adapter_source(ctx, case)
+            if fails:
+                report(case, fails)
+        ctx.notes["catalog_stream"] = f"{len(directed)} directed + {max(0, n_k - len(directed))} of {len(sweep)} sweep catalogue entries in {time.time() - t1:.1f}s"
         ctx.notes["adapter_stream"] = f"{n_c} container cases ({len(cases)} enumerated) + {n_p} random programs x optimize on/off in {time.time() - t0:.1f}s"
         # ---- fused-layer programs (harness.props_ext.c21_fused): the pure-Python FusedBlockwiseLayer shares ONE block's fused subgraph
         # between all blocks (analytical / uniform / site-based / seeded derivations): per key the dependencies of _layer(), then values
@@ -1057,7 +1102,11 @@ def run(ctx, replay=None):
         "several sites with equal / transposed / permuted / broadcast block maps, square and non-square grids; ragged creation ops / map_overlap in "
         "fused chains): every lowered node's records vs _layer() per key, then records ~ dask graph ~ per-block NumPy on all blocks; distinct = "
         "(operators, reads, block maps, ragged, non-square, fast path taken); same-name: 2-3 arrays under one user-supplied name= with different "
-        "grids / data in both orders, every consumer kind: same two oracles per (array, consumer)"
+        "grids / data in both orders, every consumer kind: same two oracles per (array, consumer); catalogue (harness.props_ext.c21_catalog): the "
+        "table of Array methods / da functions of harness.props_ext.c03_layout + directed entries feeding NumPy-typed indices / axes / offsets / depths / "
+        "block numbers to diag, diagonal, vindex (all forms), tril / triu, take, getitem, blocks, overlap, tsqr / qr / svd, arg-reductions, bincount, "
+        "histogram, searchsorted, random choice, shuffle: every lowered node's records vs _layer(); every layer's records are audited: embedded TaskRef "
+        "keys of canonical types (str names, plain int coordinates), set of str(embedded key) == declared deps, no NumPy scalar repr in key strings"
     )
     ctx.assumptions += [
         "PARTIAL: `dask_array._rust` cannot be built offline; the #[pymethods]/expand() code (cartesian products, key assembly, "
